@@ -137,17 +137,11 @@ func (op vfC42IOp) String() string {
 
 func vfC42IDrawOp(rt *rapid.T) vfC42IOp {
 	var op vfC42IOp
-	r := rapid.IntRange(0, 199).Draw(rt, "kind")
-	switch {
-	case r < 60:
-		op.Kind = 0
-	case r < 116:
-		op.Kind = 1
-	case r < 160:
-		op.Kind = 2
-	case r < 199:
-		op.Kind = 4 // put immediately followed by a get relative to the capacity just put
-	default:
+	// rapid's integer generators are biased towards small values and the upper bound, so the kind is taken from a
+	// table indexed by r mod 16 (every residue is reachable from small r) instead of from contiguous ranges.
+	r := rapid.IntRange(0, 255).Draw(rt, "kind")
+	op.Kind = [16]int{4, 1, 0, 2, 0, 1, 2, 4, 0, 1, 2, 4, 0, 1, 2, 1}[r%16]
+	if r == 137 {
 		op.Kind = 3 // runtime.GC (sequential) / Gosched (concurrent): rare, a GC cycle costs as much as many cases
 	}
 	op.Slot = rapid.IntRange(0, 7).Draw(rt, "slot")
@@ -160,7 +154,7 @@ func vfC42IDrawOp(rt *rapid.T) vfC42IOp {
 			break
 		}
 		// rapid's integer generators favour small values: cheap common kinds first, large allocations last
-		r := rapid.IntRange(0, 63).Draw(rt, "lenkind")
+		r := rapid.IntRange(0, 64).Draw(rt, "lenkind") % 64
 		switch {
 		case r < 24:
 			op.Len = max((1<<rapid.IntRange(0, 7).Draw(rt, "ksmall"))+rapid.IntRange(-1, 1).Draw(rt, "pm"), 1)
@@ -354,7 +348,7 @@ func (a *vfC42IActor) mutate(op vfC42IOp) {
 	switch op.Mut {
 	case 0: // what the writer does: fill the first k slots, leave B untouched
 		k := op.A % (l + 1)
-		if op.A&(1<<19) != 0 {
+		if op.B&1 != 0 {
 			k = l
 		}
 		for j := 0; j < k; j++ {
@@ -374,7 +368,7 @@ func (a *vfC42IActor) mutate(op vfC42IOp) {
 		}
 		nb := make([]queue.Item, nc)
 		fillTo := op.B % (nc + 1)
-		if op.B&(1<<19) != 0 {
+		if op.B&1 != 0 {
 			fillTo = nc
 		}
 		for j := 0; j < fillTo; j++ {
